@@ -11,37 +11,41 @@ BASE=$(mktemp -d "${TMPDIR:-/tmp}/verif-sens-XXXXXX")
 trap 'rm -rf "$BASE"' EXIT
 filter=("$@")
 want() { [ ${#filter[@]} -eq 0 ] && return 0; for f in "${filter[@]}"; do [[ "$1" == *"$f"* ]] && return 0; done; return 1; }
-pass=0; miss=0; results=()
-run_one() { # id prop patch
+JOBS=${VERIF_SENS_JOBS:-1}
+run_one() { # id prop patch   (one result line on stdout, also kept in $BASE/res/<id>)
   local id=$1 prop=$2 patch=$3 dir="$BASE/$1"
   mkdir -p "$dir"; rsync -a --exclude .git "$REPO/" "$dir/repo/"
   if ! (cd "$dir/repo" && patch -p1 -s --no-backup-if-mismatch < "$patch"); then
-    echo "SENSITIVITY $id: patch does not apply to the current tree (skipped)"; results+=("$id skipped"); rm -rf "$dir"; return
+    echo "SENSITIVITY $id: patch does not apply to the current tree (skipped)" | tee "$BASE/res/$id"; rm -rf "$dir"; return
   fi
   local out="$dir/out.txt"
-  VERIF_REPO="$dir/repo" "$VERIF/check" "$(echo "$prop" | tr A-Z a-z)" --tier quick >"$out" 2>&1
+  # evidence / replays written by this run belong to the mutant, not to /repo: kept out of /verif
+  # VERIF_STOP_AT_FIRST: the first violation ends the exploration (nothing is minimised)
+  VERIF_STOP_AT_FIRST=1 VERIF_OUT="$dir" VERIF_REPO="$dir/repo" "$VERIF/check" "$(echo "$prop" | tr A-Z a-z)" --tier quick >"$out" 2>&1
   local rc=$?
-  # evidence / replays written by this run belong to the mutant, not to /repo: restored below
   if [ $rc = 1 ] && grep -q "^VIOLATION property=$prop" "$out"; then
-    echo "SENSITIVITY $id ($prop): detected  [$(grep -m1 'signature:' "$out" | sed 's/^ *//')] $(grep -o 'runs=[0-9]* .*wall=[0-9.]*s' "$out" | tail -1 | sed 's/distinct_nontrivial=[0-9]* //;s/worker_processes=[0-9]* //')"; pass=$((pass+1)); results+=("$id detected")
+    echo "SENSITIVITY $id ($prop): detected  [$(grep -m1 'signature:' "$out" | sed 's/^ *//')] $(grep -o 'runs=[0-9]* .*wall=[0-9.]*s' "$out" | tail -1 | sed 's/distinct_nontrivial=[0-9]* //;s/worker_processes=[0-9]* //')" | tee "$BASE/res/$id"
   else
-    echo "SENSITIVITY $id ($prop): MISSED (exit $rc)"; tail -3 "$out"; miss=$((miss+1)); results+=("$id MISSED")
+    { echo "SENSITIVITY $id ($prop): MISSED (exit $rc)"; tail -3 "$out"; } | tee "$BASE/res/$id"
   fi
   rm -rf "$dir"
 }
-# keep the committed evidence / replays of the real tree intact
-cp -a "$VERIF/evidence" "$BASE/evidence.bak"; cp -a "$VERIF/replays" "$BASE/replays.bak" 2>/dev/null || true
+export -f run_one; export BASE REPO VERIF
+mkdir -p "$BASE/res"
+list="$BASE/list.txt"; : > "$list"
 for d in "$VERIF"/seeded/*/; do
   id=$(basename "$d"); want "$id" || continue
   prop=$(python3 -c "import json;print(json.load(open('$d/meta.json'))['property'])")
-  run_one "$id" "$prop" "$d/patch.diff"
+  echo "$id $prop ${d}patch.diff" >> "$list"
 done
 for p in "$VERIF"/mutants/*.diff; do
   [ -e "$p" ] || continue
   id=$(basename "$p" .diff); want "$id" || continue
   prop=$(echo "$id" | cut -d- -f1 | tr a-z A-Z)
-  run_one "$id" "$prop" "$p"
+  echo "$id $prop $p" >> "$list"
 done
-rm -rf "$VERIF/evidence" "$VERIF/replays"; cp -a "$BASE/evidence.bak" "$VERIF/evidence"; cp -a "$BASE/replays.bak" "$VERIF/replays" 2>/dev/null || mkdir -p "$VERIF/replays"
+xargs -P "$JOBS" -L 1 bash -c 'run_one "$0" "$1" "$2"' < "$list"
+pass=$(grep -l "): detected" "$BASE"/res/* 2>/dev/null | wc -l)
+miss=$(grep -l "MISSED" "$BASE"/res/* 2>/dev/null | wc -l)
 echo "sensitivity self-test: detected=$pass missed=$miss"
 [ $miss = 0 ]
